@@ -30,7 +30,7 @@ ASSUME = ["workers poll with timeouts <= 5 s: all node/connection/application wo
           "timeout closures happen between wait_timeout and wait_timeout + wakeup + 2 s after stop()"]
 
 STATES = ["connecting", "awaiting-cer", "awaiting-cea", "ready", "ready", "waiting-dwa", "disconnecting"]
-REACTIONS = ["prompt", "late", "never", "close", "reset", "dpa-pending-output"]
+REACTIONS = ["prompt", "late", "never", "close", "reset", "dpa-pending-output", "dwa-then-dpa"]
 
 
 def world_cfg(case):
@@ -145,6 +145,16 @@ def evaluate(case) -> Result:
                     w.advance(1)
                     c.remote.sock.tx_blocked = False
                     w.run()
+                    t_dpa[i] = w.k.now
+                    del pending_reactions[i]
+                elif react == "dwa-then-dpa":
+                    # an in-order peer: it first answers the node's outstanding watchdog request (if any, else a
+                    # stray DWA), then the DPR
+                    host_i = c.host or f"peer{i + 1}.example"
+                    dwrs = [f for f in c.out if f.code == W.CMD_DW and f.is_request]
+                    ids = {"hbh": dwrs[-1].h["hbh"], "e2e": dwrs[-1].h["e2e"]} if dwrs else {"hbh": 0xde00 + i, "e2e": 0xde00 + i}
+                    w.feed_msg(c, dict(ids, k="DWA", host=host_i))
+                    w.feed_msg(c, {"k": "DPA", "host": host_i, "hbh": dprs[0].h["hbh"], "e2e": dprs[0].h["e2e"]})
                     t_dpa[i] = w.k.now
                     del pending_reactions[i]
                 elif react == "close":
